@@ -552,17 +552,17 @@ func deriveStore(rng *RNG, T *Config, opt genOpt) *Config {
 				continue
 			}
 			switch k := rng.Intn(100); {
-			case k < 25: // dropped
-			case k < 40:
+			case k < 20: // dropped
+			case k < 28:
 				r.Action = Pick(rng, []string{"ALLOW", "DROP", "REJECT"})
 				rs = append(rs, r)
-			case k < 50:
+			case k < 34:
 				r.Seq = Pick(rng, []int{10, 20, 30, 40})
 				rs = append(rs, r)
-			case k < 60:
+			case k < 44:
 				r.Service = Pick(rng, []string{"ANY", spath("HTTP"), spath("Netspoc-tcp_80"), spath("Netspoc-udp_123")})
 				rs = append(rs, r)
-			case k < 72:
+			case k < 56:
 				if rng.Bool() {
 					r.Src = Pick(rng, addrsV4)
 				} else {
@@ -570,7 +570,37 @@ func deriveStore(rng *RNG, T *Config, opt genOpt) *Config {
 				}
 				rs = append(rs, r)
 			case k < 80:
-				r.Logged = !r.Logged
+				// exactly one of the attributes rulesPair.Equal compares differs
+				switch rng.Intn(12) {
+				case 0:
+					r.Direction = Pick(rng, []string{"IN", "OUT", "IN_OUT"})
+				case 1:
+					r.Logged = !r.Logged
+				case 2:
+					r.Tag = Pick(rng, []string{"", "testtag", "t2", "t3"})
+				case 3:
+					r.Disabled = !r.Disabled
+				case 4:
+					r.DstExcl = !r.DstExcl
+				case 5:
+					r.SrcExcl = !r.SrcExcl
+				case 6:
+					if r.SvcEntries == "" {
+						r.SvcEntries = svcEntriesEx[0]
+					} else {
+						r.SvcEntries = Pick(rng, []string{"", `[{"resource_type":"L4PortSetServiceEntry","l4_protocol":"UDP","destination_ports":["53"]}]`})
+					}
+				case 7:
+					r.IPProto = Pick(rng, []string{"IPV4", "IPV6", "IPV4_IPV6"})
+				case 8:
+					r.Profiles = Pick(rng, [][]string{nil, {"/infra/context-profiles/p1"}, {"/infra/context-profiles/p2"}})
+				case 9:
+					r.Scope = Pick(rng, [][]string{{scopes[0]}, {scopes[1]}, {scopes[0], scopes[1]}})
+				case 10:
+					r.Seq += 1
+				case 11:
+					r.Action = Pick(rng, []string{"ALLOW", "DROP", "REJECT"})
+				}
 				rs = append(rs, r)
 			case k < 92: // renamed
 				r.Id = Pick(rng, []string{r.Id + "-1", r.Id + "-2", "r7", "r8", "r9"})
